@@ -40,7 +40,7 @@ def run(ctx):
     ctx.guarded("R12.2", "append", lambda: append(ctx))
     ctx.guarded("R12.3", "move", lambda: move(ctx))
     ctx.guarded("R12.4", "apis", lambda: apis(ctx))
-    ctx.guarded("R12.5", "mutators", lambda: fifo(ctx, "R12.5", "files", {"extend", "drain", "clear", "append", "extend_from_slice", "take"}))
+    ctx.guarded("R12.5", "mutators", lambda: fifo(ctx, "R12.5", "files", {"extend", "drain", "clear", "append", "extend_from_slice", "take"}, floor=2))
 
 
 def wrap(ctx):
@@ -191,13 +191,15 @@ def append(ctx):
 
 def move(ctx):
     name = conn.parse_loop_fn(ctx)
-    fn, lv = leaves(ctx, name)
+    fn, lv = leaves(ctx, name, lower=True)      # `pending.take().map(|mut r| { r.files = ..; r })`: the closure is part of the path
     n = 0
     for lf in lv:
         for i, e in enumerate(lf.events):
             if e[0] == "call" and "VecDeque" in e[3] and self_field(e[4][2][0], "parsed_requests") and last_seg(e[3]) in ("push_back", "push_front", "insert"):
-                n += 1
                 pushed = look(e[4][2][1])
+                if is_call(pushed, "unwrap", "expect") and look(pushed[2][0])[0] == "agg" and look(pushed[2][0])[2] == "None":
+                    continue        # the None arm of a combinator on the taken request: the unwrap panics before anything is queued (C03 decides that it cannot be taken)
+                n += 1
                 # the last assignment to <pushed>.files before the push
                 fa = [a for a in lf.events[:i] if a[0] == "assign" and a[3].endswith(".files") and not a[3].startswith("(*_1)")]
                 literal = None
@@ -254,6 +256,7 @@ def move(ctx):
                 ctx.ob("R12.3", "request-under-construction|no-files|%s" % f.name.split("::")[-1], empty or at_completion, "a Request literal outside the completion step starts with an empty files list (here: %s)" % term_s(x)[:80], f.loc(bi, si))
     ctx.ob("R12.3", "request-under-construction|floor", n_lit >= 1, "%d Request literal(s) in connection.rs inspected (floor 1)" % n_lit)
     takers = 0
+    taker_roots = set()
     for f in facts.fns.values():
         from .fields import mut_borrow_consumers
         for site, bi, t in mut_borrow_consumers(f, conn.HC, "files"):
@@ -276,8 +279,9 @@ def move(ctx):
             if seg in TAKING | {"append"} and not (seg == "append" and _is_receiver(f, t, site)):
                 takers += 1
                 roots = roots_of(facts, f.name) or {f.name}
+                taker_roots |= roots
                 ctx.ob("R12.3", "list-taken-only-at-completion-or-reset|%s|%s" % (f.name.split("::")[-1], seg), roots <= {name, conn.P + "reset_parser", conn.TRY_READ}, "self.files is emptied (%s) in %s on behalf of %s: only the completion step (moves it into the request) and the parser reset may do that" % (seg, f.name, sorted(roots)), f.loc(site[0], site[1]))
-    ctx.ob("R12.3", "list-taken|floor", takers >= 2, "%d sites that take or clear self.files (floor 2: completion, reset)" % takers)
+    ctx.ob("R12.3", "list-taken|floor", takers >= 1 and name in taker_roots, "%d site(s) that take or clear self.files, on behalf of %s (floor: one, used by the completion step)" % (takers, sorted(taker_roots)))
 
 
 TAKING = {"drain", "take", "clear", "split_off", "truncate", "retain", "pop", "remove", "swap_remove", "replace", "swap"}
